@@ -810,5 +810,5 @@ def run(ctx):
                                "vlib/c10.py: program templates, renderer to MScript text and to Const/Model.v terms (abstraction of types/values)",
                                "the `mscript run` exit status / diagnostic format as the observation of the compiler's verdict"]
     ctx.assumptions = ["Const/Model.v is a hand-written abstraction (names, scopes, const flags only); tied to the compiler by verdict comparison on every triple and on random nested programs",
-                       "const_value_stable is not proved in Coq: the printed value after each accepted shadow/copy case is checked on the binary instead"]
-    core.proof_or_search(ctx, ok, ["C10_const_never_written"], spec_fail > 0)
+                       "const_value_stable is proved on the closure-free evaluation model of Const/Eval.v only (its store rules are hand-written from bytecode/src/stack.rs; the F15 witnesses behave on the unfixed binary as its head_value_changes examples predict); for closures, methods, imports the printed value after each accepted shadow/copy case is checked on the binary instead"]
+    core.proof_or_search(ctx, ok, ["C10_const_never_written", "C10_const_value_stable_partial", "C10_head_refuted"], spec_fail > 0)
